@@ -180,6 +180,37 @@ func c09(c *ev.Ctx) {
 			}
 		}
 	}
+	// a much-used evaluator whose context then expires: still nothing executes (any
+	// polling scheme must not depend on what earlier runs did)
+	for fi, f := range []string{`t(1); x = v(2); return x;`, `s = 0; foreach i in 1..7 { s = s + i; t(i); } return s;`, `function g(a) { t(a); return a + 1; } return g(g(g(1)));`, `i = 0; while (i < 37) { i++; } t(i); return i;`} {
+		for prior := 1; prior <= c.Pick(6, 40); prior++ {
+			for _, noOpt := range []bool{false, true} {
+				id := fmt.Sprintf("expired-after-use/%d/%d/%v", fi, prior, noOpt)
+				if !c.Want(id) {
+					continue
+				}
+				ctx, cancel := context.WithCancel(context.Background())
+				evr, err := eng.New(f, eng.Options{Ctx: ctx, NoOptimize: noOpt})
+				if err != nil {
+					cancel()
+					continue
+				}
+				ok := true
+				for k := 0; k < prior; k++ {
+					if o := evr.Exec(nil); o.Err != nil {
+						ok = false
+					}
+				}
+				cancel()
+				o := evr.Exec(nil)
+				c.Case(id, true)
+				if !ok || o.Err == nil || o.Steps != 0 || len(o.Trace) != 0 {
+					c.Violation(id, "expired context still executes on a used evaluator", map[string]interface{}{
+						"summary": fmt.Sprintf("%q run %d times under a live context, then the context was cancelled: the next run dispatched %d instructions, made host calls %v and returned %s (an error and no execution expected)", f, prior, o.Steps, o.Trace, o.Desc()), "script": f})
+				}
+			}
+		}
+	}
 	// finite scripts under a live context are unaffected
 	for fi, f := range c09Finite {
 		for _, noOpt := range []bool{false, true} {
